@@ -69,11 +69,16 @@ void harness(void) {
 '''
 
 
-def run(tier, only=None):
-    chk = Check('C13', tier)
+def build(tier, only, chk):
     jobs = [Job('c13.byteorder.%s' % ('be' if be else 'le'), SRC, [], be=be, unwind=12,
                 meta={'domain': 'all 2^16, 2^32, 2^64 values', 'host': 'big' if be else 'little'})
             for be in (False, True)]
+    return jobs
+
+
+def run(tier, only=None):
+    chk = Check('C13', tier)
+    jobs = build(tier, only, chk)
     chk.run(jobs)
     chk.assumptions = STD_ASSUME + ['the big-endian #if branch is compiled with __BYTE_ORDER__ forced to '
                                     '__ORDER_BIG_ENDIAN__ and executed on CBMC\'s big-endian memory model; '
